@@ -41,12 +41,12 @@ CLAIMS = {
         "note": _T + "whitespace widths are those of the corpus and its layout variants (no symbolic widths)",
     },
     "C08": {
-        "text": "Bounded: L08 re-parses the fixed text and compares token count, roles, values and indent levels with the in-memory model, and the violations of a fresh check with those of the fix run's model; K14b proves through apply_rules + main on stub rules that the report after --fix lists each violation exactly once.",
+        "text": "Bounded: L08 re-parses the fixed text and compares token count, roles, values and indent levels with the in-memory model, and the violations of a fresh check with those of the fix run's model; K14b proves through apply_rules + main on stub rules that the report after --fix lists each violation exactly once. K13b (stub rules, symbolic phases) proves rule_list.fix normalises the model exactly once right after phase 1 (fix_blank_lines, fix_trailing_whitespace, update_token_map); K08b proves for every token list of <=7 (8) tokens that this clean-up leaves the model in the form a fresh parse has (no blank before a line break, every empty line a blank_line token) and is idempotent.",
         "design_ref": "DESIGN.md section 4 C08",
         "note": _T + "corpus bound as C01",
     },
     "C09": {
-        "text": "Bounded: L09 proves fix(fix(x)) == fix(x) (text) on corpus explorations under seven configurations.",
+        "text": "Bounded: L09 proves fix(fix(x)) == fix(x) (text) on corpus explorations under seven configurations. K08b: the post-phase-1 clean-up applied twice equals applying it once, for every token list of <=7 (8) tokens. Configurations: 18 (default, jcl, indent_only, flipA-H, option sweeps flipI0-4, flipJ0-1).",
         "design_ref": "DESIGN.md section 4 C09",
         "note": _T + "corpus bound as C01; two iterations",
     },
@@ -96,12 +96,12 @@ CLAIMS = {
         "note": _T + "JSON/YAML replaced by a structural copy with JSON's coercions; behaviour on VHDL input under the emitted configuration (L17) not covered",
     },
     "C18": {
-        "text": "Bounded: K18a proves every token-index lookup equals a linear scan for all token lists of <=5 (6) tokens over 7 kinds; K18b proves extract.tokens.New / extract_tokens record start, end and line of every (sub-)region; L18 proves on corpus explorations that the index equals a recomputed one whenever a rule obtains its tokens of interest after a change and that every region of interest is the slice it claims to be.",
+        "text": "Bounded: K18a proves every token-index lookup equals a linear scan for all token lists of <=5 (6) tokens over 7 kinds; K18b proves extract.tokens.New / extract_tokens record start, end and line of every (sub-)region; L18 proves on corpus explorations that the index equals a recomputed one whenever a rule obtains its tokens of interest after a change and that every region of interest is the slice it claims to be. K13b proves the index is rebuilt exactly once after the structural phase.",
         "design_ref": "DESIGN.md section 4 C18",
         "note": _T + "get_token_pair_indexes only through the real rules",
     },
     "C19": {
-        "text": "Bounded: K19b pushes every sequence of <=3 (4) words of a structural vocabulary through the real vhdlFile constructor: accepted or ClassifyError, nothing else; L19 runs parse, full fix, check and report over pinned and random corpus explorations under seven configurations; every other harness charges escaping exceptions to C19 as well.",
+        "text": "Bounded: K19b pushes every sequence of <=3 (4) words of a structural vocabulary through the real vhdlFile constructor: accepted or ClassifyError, nothing else; L19 runs parse, full fix, check and report over pinned and random corpus explorations under seven configurations; every other harness charges escaping exceptions to C19 as well. K19c: for every regular expression compiled at module level in vsg and every unbounded repeat in it, z3 proves (path-counting semantics, |prefix|<=2, |w|<=3) that no string is consumed by the repeat in two ways while prefix+w+w still matches - i.e. no exponential backtracking; a model is replayed by timing the real re.fullmatch on the pumped string.",
         "design_ref": "DESIGN.md section 4 C19",
         "note": _T + "termination is guarded by per-path event/time budgets (unwinding assertion), not proved",
     },
